@@ -379,6 +379,27 @@ func checkFastCodec(c FCCase, cv *cov) (v *evid.Violation) {
 		if c.Kind != 2 && m.extra == nil {
 			want.extra = old.extra // field absent from the image: the receiver keeps what it had
 		}
+		if c.Kind == 2 || m.extra != nil {
+			// a receiver on which a read of a truncated image failed is read into again
+			z2 := newFC(c.Kind, &old)
+			for _, cut := range []int{len(img) / 3, len(img) - 1} {
+				if cut > 0 {
+					if _, err := z2.FastRead(img[:cut:cut]); err == nil {
+						v = evid.Failf("%s.FastRead accepted an image cut to %d of %d bytes", name, cut, len(img))
+						return
+					}
+				}
+			}
+			if n2, err := z2.FastRead(full); err != nil || n2 != len(img) {
+				v = evid.Failf("%s.FastRead after failed reads of truncated images on the same receiver returned (%d,%v)", name, n2, err)
+				return
+			}
+			got2 := readBack(c.Kind, z2)
+			if d := eqModel(c.Kind, &got2, &m); d != "" {
+				v = evid.Failf("%s.FastRead after failed reads of truncated images on the same receiver does not reproduce the value: %s", name, d)
+				return
+			}
+		}
 		got = readBack(c.Kind, z)
 		if d := eqModel(c.Kind, &got, &want); d != "" {
 			v = evid.Failf("%s.FastRead into a receiver that already held other content does not reproduce the written value: %s", name, d)
@@ -469,7 +490,7 @@ func genFCCase(t *rapid.T) FCCase {
 func TestC11_Random(t *testing.T) {
 	rec := evid.New("C11", "c11_random", "rapid: Base/BaseResp/ApplicationException values (strings of length 0,1..16,300,4095,4096,4097,20000 with pattern bytes, any i32, Extra nil/empty/1..40 entries, nil receiver) -> BLength == FastWrite == FastWriteNocopy(nil) == len(FastMarshal), image decodes by the reference to exactly the known fields, FastRead(FastWrite(x)) == x; and reference-built images with the known fields in any permutation interleaved with 0..4 unknown fields per gap drawn from the full typed-value generator (ids colliding with known ids under other types) + trailer -> FastRead returns (len(struct), nil) and the expected value; non-trivial = permuted known fields AND >= 1 unknown field of a container type")
 	defer rec.Flush()
-	runRapid(t, rec, "c11_fastcodec", evid.Pick(30000, 300000), genFCCase, checkFastCodec)
+	runRapid(t, rec, "c11_fastcodec", evid.Pick(15000, 200000), genFCCase, checkFastCodec)
 }
 
 func permutations(n int) [][]int {
